@@ -214,6 +214,12 @@ func (t *Template) recover(errp *error) {
 }
 
 func (s *Set) parse(name, text string, cacheAfterParsing bool) (t *Template, err error) {
+	return s.parseLoading(name, text, cacheAfterParsing, nil)
+}
+
+// parseLoading is parse for a template reached through the extends/import clauses of the
+// templates listed in loading.
+func (s *Set) parseLoading(name, text string, cacheAfterParsing bool, loading []string) (t *Template, err error) {
 	t = &Template{
 		Name:         name,
 		ParseName:    name,
@@ -228,7 +234,7 @@ func (s *Set) parse(name, text string, cacheAfterParsing bool) (t *Template, err
 	lexer.setCommentDelimiters(s.leftComment, s.rightComment)
 	lexer.run()
 	t.startParse(lexer)
-	t.parseTemplate(cacheAfterParsing)
+	t.parseTemplate(cacheAfterParsing, append(loading[:len(loading):len(loading)], name))
 	t.stopParse()
 
 	if t.extends != nil {
@@ -255,7 +261,7 @@ func (t *Template) expectString(context string) string {
 
 // parse is the top-level parser for a template, essentially the same
 // It runs to EOF.
-func (t *Template) parseTemplate(cacheAfterParsing bool) (next Node) {
+func (t *Template) parseTemplate(cacheAfterParsing bool, loading []string) (next Node) {
 	t.Root = t.newList(t.peek().pos)
 	// {{ extends|import stringLiteral }}
 	// Whitespace-only text next to the leading extends/import clauses is dropped. If no
@@ -280,12 +286,12 @@ func (t *Template) parseTemplate(cacheAfterParsing bool) (next Node) {
 						t.errorf("Unexpected extends clause: the 'extends' clause should come before all import clauses")
 					}
 					var err error
-					t.extends, err = t.set.getSiblingTemplate(s, t.Name, cacheAfterParsing)
+					t.extends, err = t.set.getSiblingTemplate(s, t.Name, cacheAfterParsing, loading)
 					if err != nil {
 						t.error(err)
 					}
 				} else {
-					tt, err := t.set.getSiblingTemplate(s, t.Name, cacheAfterParsing)
+					tt, err := t.set.getSiblingTemplate(s, t.Name, cacheAfterParsing, loading)
 					if err != nil {
 						t.error(err)
 					}
